@@ -4,7 +4,9 @@ From Coq Require Import List NArith Bool.
 From Coq Require Import ExtrOcamlBasic.
 From Rustun Require Import Codec.Filter Codec.DecodeLoop Codec.FilterCase.
 From Rustun Require Import Base.Tlv Agent.Reasm Agent.ReasmDrive Agent.ReasmRs.
+From Rustun Require Import Agent.Rto Agent.Model Agent.Monitors.
 Extraction Language OCaml.
 Extraction "model.ml"
   FilterCase.filter_case FilterCase.monitor_C09 FilterCase.monitor_C18_all
-  ReasmRs.run_log ReasmRs.monitor_C16.
+  ReasmRs.run_log ReasmRs.monitor_C16
+  Model.step Model.init Model.wire_type Monitors.monitor_step Monitors.mstate0.
